@@ -183,7 +183,14 @@ def gen_iscsi_name(rng, n=None):
         n = rng.choice([16, 17, 18, 19, 20, 21, 22, 23, 24, 31, 32, 33, 64, 100, 200, 223])
     base = "iqn.2001-04.com."
     n = max(n, len(base) + 1)
-    return base + "".join(rng.choice(IQN_CHARS[:36]) for _ in range(n - len(base)))
+    name = base + "".join(rng.choice(IQN_CHARS[:36]) for _ in range(n - len(base)))
+    if rng.random() < 0.15 and n < 100:
+        # iSCSI names are UTF-8 (RFC 3722): a few characters outside ASCII, the length in characters unchanged
+        chars = list(name)
+        for _ in range(rng.randint(1, 3)):
+            chars[rng.randrange(len(base), len(chars))] = rng.choice("\u00e9\u00fc\u00f8\u0142\u65e5\u672c\u03b1")
+        name = "".join(chars)
+    return name
 
 
 def gen_transport_id(rng, kind=None, namelen=None):
